@@ -1,8 +1,644 @@
-//! C26 — not built yet.
+//! C26 — yq results do not depend on the input's syntax (DESIGN §4 C26). Black-box, engine E2.
+//!
+//! One case = (data tree with string/int/bool/null leaves, unique keys, no YAML-only
+//! device; presentation-agnostic program). The tree is rendered three ways —
+//! JSON (G-json renderer: random white space in every gap, every escape form, surrogate
+//! pairs), block YAML and flow YAML (G-yaml `block_only()` / `flow_only()`) — and
+//!
+//! ```text
+//! succinctly yq -o json -I0 --from-file prog [-p json|yaml] <file>
+//! ```
+//!
+//! runs on each (the format is given either by `-p` or by the file extension, drawn per case).
+//! Oracle (differential, from the statement): identical exit status, identical stdout
+//! *values* (O-jsonval: numbers as doubles, object fields in order), identical error text
+//! (first line of stderr with the input path masked). Exit 101 / death by signal is a
+//! violation; a watchdog timeout discards the case. Byte differences between outputs whose
+//! values are equal are counted (`bytes-differ-values-equal`) but not asserted: the
+//! statement speaks of values.
+//!
+//! Sub-checks: `three-syntaxes` (the search; shapes of C26's open findings are not generated
+//! while they are listed as `known` — flags derived from known_findings.json) and
+//! `open-finding-shapes` (the same search with those shapes generated: every failure must
+//! carry a listed signature).
+//!
+//! Attribution (`check_case`): a failing case is renamed to a finding's signature only if it
+//! *passes* once that finding's shape is removed while the tree stays the same — surrogate
+//! pair escapes written raw, line breaks after bare JSON scalars reduced to one — or, for the
+//! tab finding, if the JSON route reports
+//! "tab character used for indentation" and the text has a tab outside its root value.
+//!
+//! Not part of the presentation-agnostic fragment (see `gen::yqprog::guard_text_reading_builtins`):
+//! `length` of a number, `reverse` of a boolean / null / number and `tonumber` of a boolean /
+//! null read the scalar's *source spelling* in yq semantics (`+28 | length` is 3, `28 | length`
+//! is 2; `True | reverse` is "eurT"), and G-yaml spells the same value in several ways
+//! (`+28`, `True`, `~`). The generator applies these builtins to the other types only.
+//!
+//! Structured replays: `{"input": {"json", "block_yaml", "flow_yaml", "program"}}` (texts, or
+//! `*_hex`). Development aid: `VH_C26_SURVEY=<file>` logs every failure and keeps searching.
+use crate::cli;
 use crate::engine::*;
+use crate::gen::json::{self as gj, j_eq, to_compact, J};
+use crate::gen::yaml::{self as gy, YOpts, Y};
+use crate::gen::yqprog::{self, CoreProg};
+use crate::oracle::jsonval;
+use serde_json::{json, Value};
+use std::sync::atomic::{AtomicU64, Ordering};
 
-pub const RULE: &str = "not built";
+pub const RULE: &str = "data trees (string/int/bool/null leaves, unique keys, depth <= 5, G-yaml full string palette) rendered as JSON (random gaps and escapes), block YAML and flow YAML, x presentation-agnostic programs (paths, iteration, pipes, comma, construction, integer arithmetic, comparison, boolean operators, //, if, select, map, keys, length, type, to_entries, has, sort, add, group/unique/min/max, string functions, simple writes) drawn from the tree's own keys, indices and values. Oracle: `yq -o json -I0 prog` gives the same exit status, the same values (O-jsonval) and the same error text on all three renderings. Non-trivial: program with >= 2 nodes on a tree of depth >= 2; distinct by hash(tree, program).";
+
+static TIMEOUTS: AtomicU64 = AtomicU64::new(0);
+
+#[derive(Clone, Debug)]
+pub struct Case {
+    pub json: Vec<u8>,
+    pub block: Vec<u8>,
+    pub flow: Vec<u8>,
+    pub program: String,
+    /// give the format with `-p` (true) or through the file extension (false)
+    pub explicit_format: bool,
+}
+
+fn trunc(s: &str, n: usize) -> String {
+    if s.chars().count() > n {
+        format!("{}...", s.chars().take(n).collect::<String>())
+    } else {
+        s.to_string()
+    }
+}
+
+fn tmp_named(stem: &str, ext: &str, data: &[u8]) -> std::path::PathBuf {
+    let mut p = cli::tmp_file(stem).into_os_string();
+    p.push(ext);
+    let p = std::path::PathBuf::from(p);
+    std::fs::write(&p, data).expect("write temp file");
+    p
+}
+
+fn spawn(args: &[&str]) -> Option<cli::CliOut> {
+    let mut o = cli::run(args, None);
+    if o.timed_out {
+        o = cli::run(args, None);
+    }
+    if o.timed_out {
+        TIMEOUTS.fetch_add(1, Ordering::Relaxed);
+        return None;
+    }
+    Some(o)
+}
+
+struct RouteOut {
+    name: &'static str,
+    out: cli::CliOut,
+    /// first message line of stderr with the input path masked
+    err: String,
+}
+
+fn run_route(name: &'static str, text: &[u8], json: bool, explicit: bool, prog_path: &str) -> Option<RouteOut> {
+    let ext = if explicit { ".dat" } else if json { ".json" } else { ".yaml" };
+    let f = tmp_named("c26", ext, text);
+    let fs = f.to_string_lossy().to_string();
+    let mut args: Vec<&str> = vec!["yq", "-o", "json", "-I0", "--from-file", prog_path];
+    if explicit {
+        args.push("-p");
+        args.push(if json { "json" } else { "yaml" });
+    }
+    args.push(&fs);
+    let out = spawn(&args);
+    let _ = std::fs::remove_file(&f);
+    let out = out?;
+    let stderr = out.stderr_str();
+    let line = stderr.lines().find(|l| !l.trim().is_empty()).unwrap_or("").replace(&fs, "<FILE>");
+    Some(RouteOut { name, out, err: trunc(&line, 300) })
+}
+
+/// Open finding: a JSON text with a tab in the white space *around* its root value (before
+/// the first or after the last token) can be rejected with "tab character used for
+/// indentation": `[1,2]\n\t`, `"a"\t`, `\t"a"`, `\n\ttrue`. Tabs inside the brackets are fine.
+const SIG_JSON_OUTER_TAB: &str = "C26/json-input-rejected/tab-outside-root-value";
+
+/// (start, end) of the root value's text: first and one-past-last non-white-space byte
+fn root_extent(json: &[u8]) -> (usize, usize) {
+    let ws = |b: &u8| matches!(b, b' ' | b'\t' | b'\n' | b'\r');
+    let s = json.iter().position(|b| !ws(b)).unwrap_or(json.len());
+    let e = json.iter().rposition(|b| !ws(b)).map(|p| p + 1).unwrap_or(s);
+    (s, e)
+}
+
+/// a tab before the first or after the last token; with `fix` those tabs become spaces
+fn tab_outside_root(json: &mut [u8], fix: bool) -> bool {
+    let (s, e) = root_extent(json);
+    let mut found = false;
+    for i in (0..s).chain(e..json.len()) {
+        if json[i] == b'\t' {
+            found = true;
+            if fix {
+                json[i] = b' ';
+            }
+        }
+    }
+    found
+}
+
+/// Open finding: a number / `true` / `false` / `null` followed by white space with two or
+/// more line breaks (a blank line) inside a JSON array or object is read as a string with
+/// the folded line break attached (`[1\n\n]` gives `["1\n"]`).
+const SIG_JSON_BLANK_LINE: &str = "C26/json-input-misread/bare-scalar-before-blank-line";
+
+/// Gaps after bare (unquoted) JSON tokens that contain two or more line-break bytes.
+/// With `fix`, every line-break byte after the first in such a gap becomes a space
+/// (the text stays the same JSON value, the same length). Returns whether the shape occurred.
+fn bare_scalar_before_blank_line(json: &mut [u8], fix: bool) -> bool {
+    let mut found = false;
+    let mut i = 0;
+    let mut in_str = false;
+    while i < json.len() {
+        let b = json[i];
+        if in_str {
+            if b == b'\\' {
+                i += 1;
+            } else if b == b'"' {
+                in_str = false;
+            }
+            i += 1;
+            continue;
+        }
+        if b == b'"' {
+            in_str = true;
+            i += 1;
+            continue;
+        }
+        let bare = b.is_ascii_alphanumeric() || matches!(b, b'.' | b'+' | b'-');
+        if bare && i + 1 < json.len() && matches!(json[i + 1], b' ' | b'\t' | b'\n' | b'\r') {
+            let mut k = i + 1;
+            let mut breaks = 0;
+            while k < json.len() && matches!(json[k], b' ' | b'\t' | b'\n' | b'\r') {
+                if json[k] == b'\n' || json[k] == b'\r' {
+                    breaks += 1;
+                    if breaks >= 2 {
+                        found = true;
+                        if fix {
+                            json[k] = b' ';
+                        }
+                    }
+                }
+                k += 1;
+            }
+            i = k;
+            continue;
+        }
+        i += 1;
+    }
+    found
+}
+
+/// digits -> N: a stable shape of an error message
+fn err_shape(msg: &str) -> String {
+    let mut out = String::new();
+    let mut last_n = false;
+    for c in msg.chars() {
+        if c.is_ascii_digit() {
+            if !last_n {
+                out.push('N');
+            }
+            last_n = true;
+        } else {
+            last_n = false;
+            out.push(c);
+        }
+    }
+    trunc(&out, 160)
+}
+
+#[derive(Debug, PartialEq, Clone, Copy)]
+pub enum Outcome {
+    /// all three succeeded with `n` equal values
+    Values(usize),
+    /// all three failed alike
+    Errors,
+    Discarded,
+}
+
+fn first_diff(a: &J, b: &J) -> String {
+    match (a, b) {
+        (J::Arr(x), J::Arr(y)) => {
+            for (u, v) in x.iter().zip(y.iter()) {
+                if !j_eq(u, v) {
+                    return first_diff(u, v);
+                }
+            }
+            "array-length".into()
+        }
+        (J::Obj(x), J::Obj(y)) => {
+            for ((k1, u), (k2, v)) in x.iter().zip(y.iter()) {
+                if k1 != k2 {
+                    return "object-key".into();
+                }
+                if !j_eq(u, v) {
+                    return first_diff(u, v);
+                }
+            }
+            "object-length".into()
+        }
+        _ if a.kind() == b.kind() => format!("{}-value", a.kind()),
+        _ => format!("{}-vs-{}", a.kind(), b.kind()),
+    }
+}
+
+/// Open finding: a `😀`-style surrogate pair escape in a JSON string is not
+/// decoded (the string evaluates to null; `yq -o json .` prints malformed JSON).
+const SIG_JSON_SURROGATES: &str = "C26/json-input-misread/surrogate-pair-escape";
+
+/// Replace every `\uD8xx\uDCxx` escape pair inside JSON strings by the raw character
+/// (same JSON value). Returns whether any was found.
+fn surrogate_pairs_to_raw(json: &mut Vec<u8>) -> bool {
+    fn hex4(b: &[u8]) -> Option<u32> {
+        if b.len() < 4 {
+            return None;
+        }
+        let mut v = 0u32;
+        for &c in &b[..4] {
+            v = v * 16 + (c as char).to_digit(16)?;
+        }
+        Some(v)
+    }
+    let src = json.clone();
+    let mut out: Vec<u8> = Vec::with_capacity(src.len());
+    let mut found = false;
+    let mut in_str = false;
+    let mut i = 0;
+    while i < src.len() {
+        let b = src[i];
+        if !in_str {
+            in_str = b == b'"';
+            out.push(b);
+            i += 1;
+            continue;
+        }
+        if b == b'"' {
+            in_str = false;
+            out.push(b);
+            i += 1;
+            continue;
+        }
+        if b == b'\\' && i + 1 < src.len() {
+            if src[i + 1] == b'u' {
+                if let Some(hi) = hex4(&src[i + 2..]) {
+                    if (0xD800..0xDC00).contains(&hi) && src.get(i + 6) == Some(&b'\\') && src.get(i + 7) == Some(&b'u') {
+                        if let Some(lo) = hex4(&src[i + 8..]) {
+                            if (0xDC00..0xE000).contains(&lo) {
+                                let cp = 0x10000 + ((hi - 0xD800) << 10) + (lo - 0xDC00);
+                                if let Some(ch) = char::from_u32(cp) {
+                                    let mut buf = [0u8; 4];
+                                    out.extend_from_slice(ch.encode_utf8(&mut buf).as_bytes());
+                                    found = true;
+                                    i += 12;
+                                    continue;
+                                }
+                            }
+                        }
+                    }
+                }
+            }
+            out.push(b);
+            out.push(src[i + 1]);
+            i += 2;
+            continue;
+        }
+        out.push(b);
+        i += 1;
+    }
+    if found {
+        *json = out;
+    }
+    found
+}
+
+/// The oracle plus attribution to the open JSON-input findings: the shapes are removed from
+/// the JSON rendering one after the other (each rewrite keeps the JSON value); a failing
+/// case that passes as soon as a shape is gone is that finding, whatever the symptom.
+pub fn check_case(c: &Case, st: &mut Stats) -> Result<Outcome, Fail> {
+    let f = match check_inner(c, st) {
+        Err(f) => f,
+        ok => return ok,
+    };
+    if f.sig.starts_with("C26/crash") || f.sig == SIG_JSON_OUTER_TAB {
+        return Err(f);
+    }
+    let mut fixed = c.clone();
+    let steps: [(&str, &str, fn(&mut Vec<u8>) -> bool); 2] = [
+        (SIG_JSON_SURROGATES, "the same case passes when the surrogate pair escapes of the JSON text are written as raw characters", surrogate_pairs_to_raw),
+        (SIG_JSON_BLANK_LINE, "the same case passes when the line breaks after bare JSON scalars are reduced to one", |j| bare_scalar_before_blank_line(j, true)),
+    ];
+    for (sig, why, fix) in steps {
+        if fix(&mut fixed.json) {
+            if let Ok(o) = check_inner(&fixed, st) {
+                if o != Outcome::Discarded {
+                    let mut d = f.detail.clone();
+                    if let Some(m) = d.as_object_mut() {
+                        m.insert("symptom".into(), json!(f.sig));
+                        m.insert("attributed_because".into(), json!(why));
+                    }
+                    return Err(Fail::new(sig, d));
+                }
+            }
+        }
+    }
+    Err(f)
+}
+
+fn check_inner(c: &Case, st: &mut Stats) -> Result<Outcome, Fail> {
+    let prog = tmp_named("c26p", ".jq", c.program.as_bytes());
+    let ps = prog.to_string_lossy().to_string();
+    let routes = [
+        run_route("json", &c.json, true, c.explicit_format, &ps),
+        run_route("block-yaml", &c.block, false, c.explicit_format, &ps),
+        run_route("flow-yaml", &c.flow, false, c.explicit_format, &ps),
+    ];
+    let _ = std::fs::remove_file(&prog);
+    st.evals(3);
+    let mut rs: Vec<RouteOut> = vec![];
+    for r in routes {
+        match r {
+            Some(r) => rs.push(r),
+            None => return Ok(Outcome::Discarded),
+        }
+    }
+    let detail = |rs: &[RouteOut], extra: Value| -> Value {
+        let mut d = json!({
+            "program": c.program, "explicit_format_flag": c.explicit_format,
+            "json": show_bytes(&c.json), "block_yaml": show_bytes(&c.block), "flow_yaml": show_bytes(&c.flow),
+        });
+        let m = d.as_object_mut().unwrap();
+        for r in rs {
+            m.insert(format!("{}_exit", r.name), json!(r.out.code));
+            m.insert(format!("{}_stdout", r.name), json!(trunc(&r.out.stdout_str(), 500)));
+            m.insert(format!("{}_stderr", r.name), json!(r.err));
+        }
+        if let Some(e) = extra.as_object() {
+            for (k, v) in e {
+                m.insert(k.clone(), v.clone());
+            }
+        }
+        d
+    };
+    for r in &rs {
+        if r.out.crashed() {
+            return Err(Fail::new(
+                format!("C26/crash/{}/{}", r.name, if let Some(s) = r.out.signal { format!("signal-{}", s) } else { "exit-101".into() }),
+                detail(&rs, json!({"stderr": trunc(&r.out.stderr_str(), 600)})),
+            ));
+        }
+    }
+    if rs[0].out.code != Some(0) && rs[0].err.contains("tab character used for indentation") && tab_outside_root(&mut c.json.clone(), false) {
+        return Err(Fail::new(SIG_JSON_OUTER_TAB, detail(&rs, json!({}))));
+    }
+    for r in &rs[1..] {
+        if r.out.code != rs[0].out.code {
+            // name the route that failed and the shape of its message
+            let failing = if rs[0].out.code != Some(0) { &rs[0] } else { r };
+            let ok_route = if rs[0].out.code != Some(0) { r.name } else { rs[0].name };
+            return Err(Fail::new(
+                format!("C26/exit-status-differs/{}-fails-{}-succeeds/{}", failing.name, ok_route, err_shape(&failing.err)),
+                detail(&rs, json!({})),
+            ));
+        }
+    }
+    let mut vals: Vec<Vec<J>> = vec![];
+    for r in &rs {
+        match jsonval::parse_stream(&r.out.stdout) {
+            Ok(v) => vals.push(v),
+            Err(e) => return Err(Fail::new(format!("C26/output-unparseable/{}", r.name), detail(&rs, json!({"error": e.msg, "offset": e.offset})))),
+        }
+    }
+    for i in 1..3 {
+        if vals[i].len() != vals[0].len() {
+            return Err(Fail::new(
+                format!("C26/values-differ/json-vs-{}/result-count", rs[i].name),
+                detail(&rs, json!({"json_results": vals[0].len(), "other_results": vals[i].len()})),
+            ));
+        }
+        for (k, (a, b)) in vals[0].iter().zip(vals[i].iter()).enumerate() {
+            if !j_eq(a, b) {
+                return Err(Fail::new(
+                    format!("C26/values-differ/json-vs-{}/{}", rs[i].name, first_diff(a, b)),
+                    detail(&rs, json!({"result_index": k, "json_value": trunc(&to_compact(a), 300), "other_value": trunc(&to_compact(b), 300)})),
+                ));
+            }
+        }
+    }
+    for r in &rs[1..] {
+        if r.err != rs[0].err {
+            return Err(Fail::new(format!("C26/error-text-differs/json-vs-{}", r.name), detail(&rs, json!({}))));
+        }
+    }
+    if rs.iter().any(|r| r.out.stdout != rs[0].out.stdout) {
+        st.class("bytes-differ-values-equal");
+    }
+    if rs[0].out.code == Some(0) {
+        Ok(Outcome::Values(vals[0].len()))
+    } else {
+        Ok(Outcome::Errors)
+    }
+}
+
+// ---------------------------------------------------------------- generation
+
+fn avoid() -> gy::YAvoid {
+    // trigger shapes of the open loader findings that can occur without YAML-only devices
+    gy::YAvoid { empty_value_before_col0_quoted_key: true, quote_inside_flow_plain: true, tab_after_closing_quote: true, ..gy::YAvoid::none() }
+}
+
+fn tree_opts(simple: bool) -> YOpts {
+    let mut o = YOpts::plain_data();
+    o.max_depth = 5;
+    o.max_nodes = 30;
+    o.avoid = avoid();
+    if simple {
+        o.strings = gy::YStrings::Simple;
+    }
+    o
+}
+
+/// Shapes of C26's open findings that `three-syntaxes` does not generate (from
+/// known_findings.json; a finding that becomes `fixed` is generated again).
+#[derive(Clone, Copy, Default)]
+struct Avoid {
+    /// a tab in the white space around the JSON root value
+    outer_tab: bool,
+    /// a blank line after a bare JSON scalar
+    blank_line: bool,
+    /// a surrogate pair escape in a JSON string
+    surrogates: bool,
+}
+
+struct Generated {
+    case: Case,
+    tree: Y,
+    prog: CoreProg,
+}
+
+fn gen_case(u: &mut Src, av: Avoid) -> Generated {
+    // half of the trees use the simple palette: programs (string functions, sorting,
+    // comparisons) hit more often; the other half carries every hostile string through
+    // all three syntaxes
+    let simple = u.bool();
+    let o = tree_opts(simple);
+    let tree = gy::gen_doc(u, &o);
+    let prog = yqprog::gen_core(u, &tree);
+    let j = gy::to_json_model(&tree);
+    let ro = gj::render_opts(u);
+    let mut json = gj::render(&j, u, ro).text;
+    if av.surrogates {
+        surrogate_pairs_to_raw(&mut json);
+    }
+    if av.outer_tab {
+        tab_outside_root(&mut json, true);
+    }
+    if av.blank_line {
+        bare_scalar_before_blank_line(&mut json, true);
+    }
+    let mut bo = YOpts::block_only();
+    bo.avoid = avoid();
+    let mut fo = YOpts::flow_only();
+    fo.avoid = avoid();
+    let stream = vec![tree.clone()];
+    let block = gy::render(&stream, u, &bo).text;
+    let flow = gy::render(&stream, u, &fo).text;
+    let explicit_format = u.bool();
+    Generated { case: Case { json, block, flow, program: prog.text.clone(), explicit_format }, tree, prog }
+}
+
+fn classify(g: &Generated, st: &mut Stats) {
+    let depth = g.tree.depth();
+    let nt = g.prog.nodes >= 2 && depth >= 2;
+    if nt {
+        let mut h = g.case.json.clone();
+        h.extend_from_slice(g.case.program.as_bytes());
+        st.nontrivial(hash_bytes(&h));
+    }
+    st.class_if(nt, "nontrivial");
+    st.class(&format!("tree-depth-{}", depth.min(5)));
+    st.class(&format!("program-nodes-{}", match g.prog.nodes {
+        0..=1 => "1",
+        2..=3 => "2-3",
+        4..=7 => "4-7",
+        _ => "8+",
+    }));
+    for t in &g.prog.tags {
+        st.class(t);
+    }
+    st.class(if g.case.explicit_format { "format-by-flag" } else { "format-by-extension" });
+    st.class(match &g.tree {
+        Y::Map(_) => "root-mapping",
+        Y::Seq(_) => "root-sequence",
+        _ => "root-scalar",
+    });
+    st.size(g.case.json.len());
+    let cls = g.prog.tags.first().copied().unwrap_or("?");
+    st.sample(cls, || json!({"json": show_bytes(&g.case.json), "block_yaml": show_bytes(&g.case.block), "flow_yaml": show_bytes(&g.case.flow), "program": g.case.program}));
+}
+
+fn describe(c: &Case) -> Value {
+    json!({
+        "json_hex": hex(&c.json), "block_yaml_hex": hex(&c.block), "flow_yaml_hex": hex(&c.flow),
+        "json": String::from_utf8_lossy(&c.json), "block_yaml": String::from_utf8_lossy(&c.block), "flow_yaml": String::from_utf8_lossy(&c.flow),
+        "program": c.program, "explicit_format": c.explicit_format,
+    })
+}
+
+fn run_case(u: &mut Src, st: &mut Stats, av: Avoid) -> Result<(), Fail> {
+    let g = gen_case(u, av);
+    st.class_if(tab_outside_root(&mut g.case.json.clone(), false), "json:tab-outside-root-value");
+    st.class_if(surrogate_pairs_to_raw(&mut g.case.json.clone()), "json:surrogate-pair-escape");
+    st.class_if(bare_scalar_before_blank_line(&mut g.case.json.clone(), false), "json:blank-line-after-bare-scalar");
+    classify(&g, st);
+    st.describe(|| describe(&g.case));
+    let outcome = match check_case(&g.case, st) {
+        Ok(o) => o,
+        Err(f) => {
+            // development aid: VH_C26_SURVEY=<file> appends every failure to <file> and
+            // keeps searching without shrinking
+            if let Ok(path) = std::env::var("VH_C26_SURVEY") {
+                use std::io::Write;
+                if let Ok(mut fh) = std::fs::OpenOptions::new().create(true).append(true).open(&path) {
+                    let _ = writeln!(fh, "{}", json!({"sig": f.sig, "detail": f.detail}));
+                }
+                st.class("survey:failure");
+                return Ok(());
+            }
+            return Err(f);
+        }
+    };
+    match outcome {
+        Outcome::Values(n) => {
+            st.class("outcome:values-compared");
+            st.class_if(n == 0, "outcome:no-result");
+            st.class_if(n > 1, "outcome:multiple-results");
+        }
+        Outcome::Errors => st.class("outcome:all-three-error-alike"),
+        Outcome::Discarded => st.discard(),
+    }
+    Ok(())
+}
+
+fn replay_input(v: &Value) -> Option<Fail> {
+    let inp = &v["input"];
+    let get = |name: &str| -> Option<Vec<u8>> {
+        match (inp[name].as_str(), inp[format!("{}_hex", name).as_str()].as_str()) {
+            (_, Some(h)) => Some(unhex(h)),
+            (Some(s), None) => Some(s.as_bytes().to_vec()),
+            _ => None,
+        }
+    };
+    let (json, block, flow, program) = match (get("json"), get("block_yaml"), get("flow_yaml"), inp["program"].as_str()) {
+        (Some(a), Some(b), Some(c), Some(p)) => (a, b, c, p.to_string()),
+        _ => return Some(Fail::new("C26/replay/malformed", json!({"why": "need json, block_yaml, flow_yaml, program"}))),
+    };
+    let case = Case { json, block, flow, program, explicit_format: inp["explicit_format"].as_bool().unwrap_or(true) };
+    let mut st = Stats::default();
+    match catch(|| check_case(&case, &mut st)) {
+        Ok(Ok(_)) => None,
+        Ok(Err(f)) => Some(f),
+        Err((loc, msg)) => Some(Fail::new(format!("panic@{}", panic_sig(&loc)), json!({"panic": msg, "location": loc}))),
+    }
+}
 
 pub fn run(cx: &mut Ctx) {
-    cx.infra("check not built");
+    cx.assume("the `succinctly` binary at $VH_CLI is built from /repo's working tree (run.sh rebuilds it)");
+    cx.assume("the three renderings denote the same tree by construction (G-json and G-yaml render one model; G-yaml was cross-checked with PyYAML during development, C14 checks the loader against it)");
+    cx.assume("O-jsonval (harness JSON parser) reads the CLI's JSON output; numbers compare as doubles (trees and programs are integer-preserving apart from `tonumber` on strings, which sees the same strings on every route)");
+    if !cli::cli_available() {
+        cx.infra(format!("CLI binary not found at {}", cli::cli_path()));
+        return;
+    }
+    for (name, v) in cx.replays.clone() {
+        if v["kind"] == "input" {
+            let r = replay_input(&v);
+            cx.replay_outcome(&name, r);
+        }
+    }
+    let av = Avoid { outer_tab: cx.is_known(SIG_JSON_OUTER_TAB), blank_line: cx.is_known(SIG_JSON_BLANK_LINE), surrogates: cx.is_known(SIG_JSON_SURROGATES) };
+    if av.outer_tab || av.blank_line || av.surrogates {
+        cx.note("open findings: `three-syntaxes` does not generate the JSON shapes of the findings listed as known (tab in the white space around the root value / blank line after a bare scalar / surrogate pair escapes); `open-finding-shapes` generates them");
+    }
+    cx.check("three-syntaxes", RULE, Budget { quick: 4_000, thorough: 200_000, max_len: 2500 }, |u, st| run_case(u, st, av));
+    for cl in [
+        "nontrivial", "outcome:values-compared", "outcome:all-three-error-alike", "outcome:multiple-results", "format-by-flag", "format-by-extension",
+        "root-mapping", "root-sequence", "field", "index", "iterate", "pipe", "comma", "array-construct", "object-construct", "compare", "boolean",
+        "alternative", "if", "select", "map", "keys", "length", "type", "to_entries", "has", "sort", "add", "write", "tree-depth-3",
+    ] {
+        cx.require_class("three-syntaxes", cl, 10);
+    }
+    cx.check(
+        "open-finding-shapes",
+        "the same search with the shapes of C26's open findings generated (trailing JSON white space unrestricted); failures with a listed signature are counted, others are violations",
+        Budget { quick: 400, thorough: 10_000, max_len: 2500 },
+        |u, st| run_case(u, st, Avoid::default()),
+    );
+    let t = TIMEOUTS.load(Ordering::Relaxed);
+    if t > 0 {
+        cx.note(format!("{} CLI runs hit the 20 s watchdog twice and were discarded (not violations)", t));
+    }
+    cli::cleanup();
 }
